@@ -376,3 +376,34 @@ class SymSetOf:
 
     def __pyvc_truth__(self) -> Any:
         return len(self.items) > 0
+
+
+import functools as _functools
+import traceback as _traceback
+
+
+@model(_functools.wraps, 'functools.wraps(f): decorator that copies metadata only; the decorated function is returned unchanged')
+def m_wraps(I: Any, wrapped: Any, *a: Any, **k: Any) -> Any:
+    return _IDENTITY_DECORATOR
+
+
+class _IdentityDecorator:
+    __pyvc_native__ = True
+
+    def __call__(self, fn: Any) -> Any:
+        return fn
+
+
+_IDENTITY_DECORATOR = _IdentityDecorator()
+
+
+@model(_traceback.format_exc, 'traceback.format_exc(): a str describing the exception being handled')
+def m_format_exc(I: Any, *a: Any, **k: Any) -> Any:
+    return I.ctx.fresh_str('traceback')
+
+import typing as _typing
+
+
+@model(_typing.cast, 'typing.cast(T, x): returns x unchanged')
+def m_cast(I: Any, typ: Any, val: Any) -> Any:
+    return val
